@@ -193,7 +193,11 @@ func (prop) Run(c core.Case) core.Outcome {
 		}
 		exp := fmt.Sprintf("ok ser=%s wf=%s tree=%s parse=%s save=%s", digLen(in), wf, tree, res.parseField(), res.saveField())
 		out := core.Outcome{Key: res.parseField() + res.saveField()}
-		out.Checks = append(out.Checks, core.Check{Tag: "M", What: "img", Req: "img " + c.Args["recipe"], Exp: exp})
+		if c.Args["oracle_only"] != "1" {
+			// (the 16 MiB cases run without the model in the quick tier: tens of seconds each in the
+			// list-based model, well under a second in Go)
+			out.Checks = append(out.Checks, core.Check{Tag: "M", What: "img", Req: "img " + c.Args["recipe"], Exp: exp})
+		}
 		if wf == "1" {
 			out.Checks = append(out.Checks, identityChecks(in, res, img)...)
 			out.Class = "wf:" + res.parseClass + "/" + res.saveClass
@@ -263,6 +267,12 @@ func (prop) Gen(r *rand.Rand, tier string) []core.Case {
 	if tier == "thorough" {
 		n = 12000
 		cs = append(cs, bigCases()...)
+	} else {
+		for _, c := range bigCases() {
+			c.Kind += "-oracle"
+			c.Args["oracle_only"] = "1"
+			cs = append(cs, c)
+		}
 	}
 	for i := 0; i < n; i++ {
 		g := &hu.Gen{R: r, MaxAlign: 4, Depth: 2}
